@@ -556,14 +556,20 @@ class ExprMixin:
     return VList(self._comp(node, env))
 
   def ev_GeneratorExp(self, node, env):
+    if len(node.generators) == 1 and not node.generators[0].ifs and not self.spec_mode:
+      src = self.ev(node.generators[0].iter, env)
+      src = self.unopt(src)
+      if isinstance(src, VIter):
+        return VGen(src, node.generators[0].target, node.elt, env)
+      return VList(self._comp(node, env, src))
     return VList(self._comp(node, env))
 
-  def _comp(self, node, env):
+  def _comp(self, node, env, src=None):
     if len(node.generators) != 1:
       raise Unsupported('nested comprehension')
     g = node.generators[0]
     out = []
-    for x in self.iter_concrete(self.ev(g.iter, env)):
+    for x in self.iter_concrete(self.ev(g.iter, env) if src is None else src):
       e2 = {'__parent__': env}
       self.assign_target(g.target, x, e2)
       ok = True
@@ -595,5 +601,5 @@ class ExprMixin:
 
   def ev_YieldFrom(self, node, env):
     src = self.ev(node.value, env)
-    self.do_yield_from(src)
-    return NONE
+    r = self.do_yield_from(src)
+    return r if r is not None else NONE
